@@ -23,13 +23,13 @@ func smugBody(n int) []byte {
 func init() {
 	Register(&Prop{
 		ID: "C02",
-		Rule: "pipelines of 1..4 requests whose bodies (Content-Length, chunked, or chunked with a malformed chunk terminator; sizes around 0, the 8 KiB prefetch and MaxRequestBodySize) consist of well-formed 'GET /smuggled' requests, " +
+		Rule: "pipelines of 1..4 requests (HTTP/1.1, or HTTP/1.0 with keep-alive) whose bodies (Content-Length, chunked, or chunked with a malformed chunk terminator; sizes around 0, the 8 KiB prefetch and MaxRequestBodySize) consist of well-formed 'GET /smuggled' requests, " +
 			"handlers reading none / k / all of the body (streaming on and off), taking it through Request.Body(), dropping it with ResetBody / SetBody, and ending normally, with an error status, or through TimeoutError / TimeoutErrorWithResponse, Expect: 100-continue accepted or rejected by ContinueHandler or ExpectHandler, random arrival chunking, followed by a sentinel request; " +
 			"monitor: the dispatched targets are a prefix of the planned ones (a body byte parsed as a request shows up as /smuggled or as garbage); non-trivial = some request carries a body; distinct = distinct input",
 		Parallel: true,
 		Build: func(kind string, a [][]byte) *Case {
 			cfg := parseCfg(a[0])
-			// a[1..]: per request "method|bodysize|framing(cl,ch)|rb|expect(0/1)|handler-ending"
+			// a[1..]: per request "method|bodysize|framing(cl,ch,chx)|rb|expect(0/1)|handler-ending|version(\"\" = 1.1, 10 = HTTP/1.0 keep-alive)"
 			var stream bytes.Buffer
 			var planned []string
 			var bodies [][]byte
@@ -53,7 +53,12 @@ func init() {
 				}
 				planned = append(planned, uri)
 				bodies = append(bodies, body)
-				fmt.Fprintf(&stream, "%s %s HTTP/1.1\r\nHost: h\r\n", f[0], uri)
+				if len(f) > 6 && f[6] == "10" && f[2] == "cl" {
+					// an HTTP/1.0 keep-alive request (it may carry an expectation all the same)
+					fmt.Fprintf(&stream, "%s %s HTTP/1.0\r\nHost: h\r\nConnection: keep-alive\r\n", f[0], uri)
+				} else {
+					fmt.Fprintf(&stream, "%s %s HTTP/1.1\r\nHost: h\r\n", f[0], uri)
+				}
 				if f[4] == "1" {
 					stream.WriteString("Expect: 100-continue\r\n")
 				}
@@ -187,7 +192,11 @@ func init() {
 					if r.Chance(20) {
 						end = r.Pick([]string{"te=1", "ter=0", "te=1", "sc=503", "bc=1", "bc=1", "rsb=1", "rsb=1", "sb=1"})
 					}
-					args = append(args, B(fmt.Sprintf("%s|%d|%s|%s|%s|%s", method, sizes[r.Intn(len(sizes))], fr, rbs[r.Intn(len(rbs))], exp, end)))
+					ver := ""
+					if r.Chance(12) {
+						ver = "10"
+					}
+					args = append(args, B(fmt.Sprintf("%s|%d|%s|%s|%s|%s|%s", method, sizes[r.Intn(len(sizes))], fr, rbs[r.Intn(len(rbs))], exp, end, ver)))
 				}
 				cuts := ""
 				if r.Chance(60) {
